@@ -93,6 +93,34 @@ def _segment(node, version, out):
                 out.append(('not_allowed', '%s_%d' % (dt, f.kids[0].key), fname_of(name, f.key)))
 
 
+def holds_degraded_field(root, version):
+    """Does the model hold a field (or component) of a base datatype with more than one child?"""
+    def seg(node):
+        fl = T.seg_fields(version, node.key)
+        for f in node.kids:
+            if not fl or f.key > len(fl) or (node.key == 'MSH' and f.key in (1, 2)):
+                continue
+            fref = fl[f.key - 1][1]
+            if fref is None:
+                continue
+            if T.is_base(version, fref[2]):
+                if len(f.kids) > 1 or any(len(c.kids) > 1 for c in f.kids):
+                    return True
+            elif fref[0] == 'sequence' and fref[1]:
+                for c in f.kids:
+                    if 1 <= c.key <= len(fref[1]) and len(c.kids) > 1:
+                        cref = fref[1][c.key - 1][1]
+                        if cref is not None and T.is_base(version, cref[2]):
+                            return True
+        return False
+
+    def walk(node):
+        if node.kind == 'seg':
+            return seg(node)
+        return any(walk(k) for k in node.kids if k.kind in ('seg', 'grp'))
+    return walk(root) if root is not None and root.kind in ('msg', 'grp', 'seg') else False
+
+
 def fname_of(seg, idx):
     return '%s_%d' % (seg, idx)
 
